@@ -24,6 +24,124 @@ def field_name(consts: Dict[str, str], e: ast.AST) -> Optional[str]:
     return None
 
 
+SCOPES = ("DG", "DS", "PG", "PS")
+SCOPE_TEXT = {"DG": "variables.default.global", "DS": "variables.default.stages.N", "PG": "variables.<platform>.global",
+              "PS": "variables.<platform>.stages.N", None: "(undefined)"}
+
+
+def _scope_getters(default_platform: bool):
+    def is_default_label(e):
+        return e is not None and (dotted(e) or "").endswith("LabelDefault")
+
+    def platform_arg(call, pos):
+        for k in call.keywords:
+            if k.arg == "platform":
+                return k.value
+        return call.args[pos] if len(call.args) > pos else None
+
+    def dg(call, it):
+        return "DG"
+
+    def ds(call, it):
+        return "DS"
+
+    def pg(call, it):
+        return "DG" if default_platform or is_default_label(platform_arg(call, 0)) else "PG"
+
+    def ps(call, it):
+        return "DS" if default_platform or is_default_label(platform_arg(call, 1)) else "PS"
+    return {"get_default_global_variables": dg, "get_default_stage_variables": ds,
+            "get_platform_global_variables": pg, "get_platform_stage_variables": ps}
+
+
+def _test_eval(default_platform: bool, true_names):
+    def ev(t, it):
+        if isinstance(t, ast.Compare) and len(t.ops) == 1 and isinstance(t.left, ast.Name) and t.left.id == "platform" \
+                and (dotted(t.comparators[0]) or "").endswith("LabelDefault"):
+            if isinstance(t.ops[0], ast.NotEq):
+                return not default_platform
+            if isinstance(t.ops[0], ast.Eq):
+                return default_platform
+        if isinstance(t, ast.Name) and t.id in true_names:
+            return True
+        if isinstance(t, ast.UnaryOp) and isinstance(t.op, ast.Not):
+            r = ev(t.operand, it)
+            return None if r is None else not r
+        if isinstance(t, ast.BoolOp):
+            rs = [ev(v, it) for v in t.values]
+            if isinstance(t.op, ast.And):
+                if any(r is False for r in rs):
+                    return False
+                return True if all(r is True for r in rs) else None
+            if any(r is True for r in rs):
+                return True
+            return False if all(r is False for r in rs) else None
+        return None
+    return ev
+
+
+def check_scope_precedence(ctx, fl, inst, flowir_lit, consts) -> None:
+    """R7 (LAYER engine): the writer (instance) and the live resolver (get_component_variables) are sibling
+    implementations of one precedence order; compare them on all membership patterns of a name in the four scopes."""
+    import itertools
+    from vlib import layer
+    rule = "C07.R7-flattening-keeps-scope-precedence"
+    gcv = fl.func("FlowIRConcrete.get_component_variables")
+    ctx.analysed(gcv)
+    # the dictionaries that instance() stores as variables.default.global / variables.default.stages
+    var_lit = next((v for k, v in zip(flowir_lit.keys, flowir_lit.values) if field_name(consts, k) == "variables"), None)
+    ctx.require(isinstance(var_lit, ast.Dict) and len(var_lit.values) == 1 and isinstance(var_lit.values[0], ast.Dict),
+                "anchor missing: the 'variables' entry of the dictionary returned by instance() is {default: {global:.., stages:..}}")
+    ctx.require((dotted(var_lit.keys[0]) or "").endswith("LabelDefault"),
+                "anchor missing: instance() stores its variables under the default platform")
+    inner = var_lit.values[0]
+    slots = {field_name(consts, k): v for k, v in zip(inner.keys, inner.values)}
+    ctx.require(isinstance(slots.get("global"), ast.Name) and isinstance(slots.get("stages"), ast.Name),
+                "anchor missing: variables.default.global / .stages of instance() are local dictionaries")
+    gname, sname = slots["global"].id, slots["stages"].id
+    true_names = {a.arg for a, d in zip(gcv.args.args[-len(gcv.args.defaults):], gcv.args.defaults)
+                  if isinstance(d, ast.Constant) and d.value is True and a.arg.startswith("include_")}
+    ctx.require(len(true_names) >= 4, "anchor missing: include_* switches (default True) of get_component_variables")
+
+    def untracked_ok(call):     # component-level variables/overrides: same on both sides of the flattening
+        return "component" in source.src(call.args[0])
+
+    n_eval = 0
+    for default_platform in (False, True):
+        labels = ("DG", "DS") if default_platform else SCOPES
+        for r in range(len(labels) + 1):
+            for combo in itertools.combinations(labels, r):
+                pat = frozenset(combo)
+                w = layer.new_interp(inst, _scope_getters(default_platform), pat, _test_eval(default_platform, set()),
+                                     value_preserving_calls={"fill_in"})
+                w.run(inst.body)
+                ctx.require(gname in w.env and sname in w.elems,
+                            "anchor missing: instance() no longer builds '%s' / '%s[stage]' from the scope getters" % (gname, sname))
+                for cell in (w.elems[sname], w.env[gname]):
+                    ctx.require(cell.unknown is None, "LAYER: a dictionary stored by instance() is %s" % cell.unknown)
+                written = w.elems[sname].value or w.env[gname].value
+                rd = layer.new_interp(gcv, _scope_getters(default_platform), pat, _test_eval(default_platform, true_names),
+                                      on_untracked_update=untracked_ok)
+                rd.run(gcv.body)
+                ctx.require(isinstance(rd.returned, ast.Name) and rd.returned.id in rd.env,
+                            "anchor missing: get_component_variables returns its layered dictionary")
+                ctx.require(rd.env[rd.returned.id].unknown is None, "LAYER: get_component_variables: %s" % rd.env[rd.returned.id].unknown)
+                live = rd.env[rd.returned.id].value
+                n_eval += 1
+                ok = written == live
+                where = "{%s}" % ", ".join(SCOPE_TEXT[l] for l in labels if l in pat) if pat else "{}"
+                pf = "default platform" if default_platform else "non-default platform"
+                ctx.ob(rule, inst, ok,
+                       ("%s, name defined in %s: both let %s win" % (pf, where, SCOPE_TEXT[live])) if ok else
+                       ("%s, a variable defined in %s: the live experiment resolves it from %s but the stored description "
+                        "keeps the value of %s (stage: %s, global: %s) - the reloaded components get a different value "
+                        "(user variables are patched in as platform-stage variables)"
+                        % (pf, where, SCOPE_TEXT[live], SCOPE_TEXT[written], SCOPE_TEXT[w.elems[sname].value], SCOPE_TEXT[w.env[gname].value])),
+                       construct="instance() scope precedence %s %s" % ("default" if default_platform else "platform", "+".join(sorted(pat)) or "none"),
+                       trivial=not pat)
+    ctx.floor(rule, n_eval, 20, "scope membership patterns evaluated")
+
+
 def run(ctx) -> None:
     from checks.c08 import class_constants
     ctx.explanation = (
@@ -39,6 +157,9 @@ def run(ctx) -> None:
     ctx.rule("C07.R4-iterations-persisted", "the controller instantiates the next iteration with store_flowir_to_disk=True and the graph stores after adding the components")
     ctx.rule("C07.R5-same-file-names", "store, generate and load use the same instance/manifest file names")
     ctx.rule("C07.R6-patch-before-store", "user variables are patched in before the unreplicated copy is taken and stored")
+    ctx.rule("C07.R7-flattening-keeps-scope-precedence", "for every way a variable name can be defined in the default/platform x "
+             "global/stage scopes, the single-platform description written by instance() lets the same scope win as "
+             "get_component_variables does on the live multi-platform description")
 
     fl = ctx.repo.module(FLOWIR)
     conf = ctx.repo.module(CONF)
@@ -97,6 +218,9 @@ def run(ctx) -> None:
             "_unreplicated" in source.src(c.func)
         ctx.ob("C07.R1-no-field-dropped", c, ok, "the unreplicated description is stored in primitive, non-filled form" if ok else
                "the stored description is not the primitive, unfilled unreplicated one (variables would be baked in / replicas stored)")
+
+    # ---------------- R7 -------------------------------------------------------------------------------
+    check_scope_precedence(ctx, fl, inst, lits[0], consts)
 
     # ---------------- R2 -------------------------------------------------------------------------------
     imp_tests = [n for n in source.walk_own(inst) if isinstance(n, ast.If) and "'$import'" in source.src(n.test)]
